@@ -243,6 +243,77 @@ def rule_limit(facts):
     return r
 
 
+def rule_scancap(facts):
+    """Stored chunks have their own fixed capacity (2048 rows) while downstream operators size their buffers by the session's batch_size.
+    A scan that hands out a whole chunk regardless of the output batch's capacity makes `SET batch_size = 4` crash (index out of
+    bounds in a worker, process abort) for any table with more than 4 rows in a chunk. Decided: in the collection scan, the row count that
+    is returned is a minimum that involves the output batch's write capacity."""
+    from .mir import operand_locals
+    r = RuleResult("C03-SCANCAP", "the column-collection scan returns at most the output batch's write capacity per call", floor=1)
+    recs = facts.fns_matching(lambda i: "arrays::collection::concurrent::ConcurrentColumnCollection" in i and i.rsplit("::", 1)[-1].startswith("scan_inner"))
+    if not recs:
+        r.missing_anchor("ConcurrentColumnCollection::scan_inner")
+        return r
+    for rec in recs:
+        if rec.get("dk") == "Closure":
+            continue
+        fn = Fn(rec)
+        if not any(c.name.endswith("ColumnChunk::scan") for c in fn.calls()):
+            continue
+        r.functions.add(fn.id)
+        caps = [c for c in fn.calls() if c.name.endswith("Batch::write_capacity")]
+        mins = []
+        for c in fn.calls():
+            if c.name.endswith("::min") and len(c.args) == 2:
+                # one operand derives from a write_capacity result
+                seen, st, hit = set(), list(operand_locals(c.args, set())), False
+                while st:
+                    l = st.pop()
+                    if l in seen:
+                        continue
+                    seen.add(l)
+                    for d in fn.defs.get(l, []):
+                        if d[0] in ("call", "pcall"):
+                            if d[2] in caps:
+                                hit = True
+                            st.extend(operand_locals(d[2].args, set()))
+                        else:
+                            st.extend(operand_locals(d[3], set()))
+                if hit:
+                    mins.append(c)
+        # successful returns after a chunk scan: Ok(x) whose x derives from such a min
+        ok_sites = 0
+        bad = []
+        chunk_scans = [c for c in fn.calls() if c.name.endswith("ColumnChunk::scan")]
+        for b, i, pl, rv, ln in fn.assigns():
+            if rv[0] == "agg" and rv[1][0] == "adt" and rv[1][2] == "Ok" and pl == [0, []] and rv[2]:
+                if not any(b in fn.reachable_from(cs.bb) for cs in chunk_scans):
+                    continue
+                if rv[2][0][0] == "k":
+                    continue
+                seen, st, hit = set(), list(operand_locals(rv[2][0], set())), False
+                while st:
+                    l = st.pop()
+                    if l in seen:
+                        continue
+                    seen.add(l)
+                    for d in fn.defs.get(l, []):
+                        if d[0] in ("call", "pcall"):
+                            if d[2] in mins:
+                                hit = True
+                            st.extend(operand_locals(d[2].args, set()))
+                        else:
+                            st.extend(operand_locals(d[3], set()))
+                ok_sites += 1
+                if not hit:
+                    bad.append(ln)
+        r.inst({"fn": fn.id, "returns_after_chunk_scan": ok_sites, "bounded_by_write_capacity": not bad and ok_sites > 0}, not bad and ok_sites > 0)
+        if bad or not ok_sites:
+            r.violate(fn.id, "scan-ignores-batch-capacity", "the number of rows returned after scanning a stored chunk is not bounded by the output batch's write capacity: with "
+                      "batch_size below the chunk's row count the consumer's buffers are overrun (panic in a worker, process abort)", rec["file"], (bad or [rec["line"]])[0])
+    return r
+
+
 def run(ctx):
     facts = ctx["facts"]
     from .c08 import rule_idxspace
@@ -252,7 +323,7 @@ def run(ctx):
     from .c14 import rule_cursor
     # chunked appends only span several chunks for some batch sizes (batch_size > chunk capacity): a cursor that is not advanced
     # leaves default settings intact and corrupts table contents only for other configurations
-    return [rule_range(facts), rule_count(facts), rule_limit(facts), merge, rule_cursor(facts, "C03-APPENDCUR", ["glaredb_core"], 1)]
+    return [rule_range(facts), rule_count(facts), rule_limit(facts), merge, rule_cursor(facts, "C03-APPENDCUR", ["glaredb_core"], 1), rule_scancap(facts)]
 
 
 CLAIM = {
